@@ -130,6 +130,10 @@ def oracle(case, impl):
         if impl.startswith("ok") and not impl.endswith("w=same"):
             return ("violation", "encode_to_writer wrote different bytes than encode")
         return None
+    if op == "encw":
+        if "DIFF" in impl:
+            return ("violation", "encode_to_writer, in a history of calls on one thread, does not write what encode returns: " + impl[:80])
+        return None
     f = fields(impl)
     tin = etf.parse_term(f["in"])
     v = etf.denote(tin)
@@ -187,6 +191,23 @@ def run(ctx):
         cases.append("rt " + etf.show(t))
     for _ in range(ctx.budget(300, 5000)):
         cases.append("enc " + etf.show(termgen.gen_term(rng, depth=3)))
+
+    # encode_to_writer: histories of calls on one thread, some of which fail (a size the format cannot express, a writer
+    # that stops accepting bytes at some point) — a failed call must leave nothing behind for the next one
+    too_long_atom = ("a", b"x" * 65536)
+    too_many_ids = ("r", b"n@h", 1, list(range(65536)), None)
+    for k in range(ctx.budget(60, 1500)):
+        items = []
+        for _ in range(rng.choice([2, 3, 5, 8])):
+            r = rng.random()
+            if r < 0.12 and k % 6 == 0:
+                t = rng.choice([too_long_atom, ("t", [("i", 1), too_long_atom]), too_many_ids])
+                items.append("W-1 " + etf.show(t))
+            else:
+                t = termgen.gen_term(rng, depth=rng.choice([0, 1, 2]))
+                limit = -1 if r < 0.7 else rng.choice([0, 1, 2, 3, 5, 8, 20, 100])
+                items.append("W%d %s" % (limit, etf.show(t)))
+        cases.append("encw " + " | ".join(items))
 
     def nontrivial(c, impl):
         return c if node_count(c) >= 2 or len(c) > 40 else None
